@@ -594,6 +594,84 @@ impl Phase for Random {
     }
 }
 
+/// one precompiled tree evaluated dozens of times on the same mutable context (state kept in the tree or the context
+/// across evaluations must not change what a fresh evaluation would do), and long programs of 50-300 statements
+struct LongLived {
+    n: u64,
+}
+
+impl Phase for LongLived {
+    fn name(&self) -> String {
+        "long-lived trees (20-80 evaluations on one context) and long programs (50-300 statements)".into()
+    }
+    fn len(&self) -> u64 {
+        self.n
+    }
+    fn run(&mut self, idx: u64, r: &mut Rng, out: &mut Out) {
+        if idx % 2 == 0 {
+            // long program
+            let n = r.range(50, 300);
+            let mut g = TypedGen { r, k: 0, slips: if idx % 4 == 0 { 0 } else { 1 } };
+            let stmts: Vec<Ast> = (0..n).map(|_| g.gen(T::Any, 2)).collect();
+            let ast = Ast::Chain(stmts);
+            out.count("long programs");
+            check_program(out, &ast, &typed_model(), r);
+            return;
+        }
+        let ast = typed_program(r, 4);
+        let toks = render_ast(&ast, Parens::Minimal, Some(r), true);
+        let src = render_spaced(&toks);
+        out.begin(|| format!("long-lived tree `{}`", src));
+        let tree = match api::build(&src) {
+            Built::Tree(t) => t,
+            _ => return,
+        };
+        let log = crate::observe::new_log();
+        let mut model = typed_model();
+        let ctx = api::ctx_from_model(&model, &log);
+        let mut rc = crate::observe::RecordingContext::new(ctx, log.clone());
+        let rounds = r.range(20, 80);
+        out.count("long-lived trees");
+        for round in 0..rounds {
+            // the reference runs the same program on the model, step by step
+            let mut m = model.clone();
+            m.mutable = true;
+            let mut run = crate::refmodel::eval::Run::default();
+            let exp = crate::refmodel::eval::eval(&ast, &mut m, &mut run);
+            if matches!(exp, Err(crate::refmodel::eval::RErr::Unclaimed(_))) {
+                return;
+            }
+            let _ = crate::observe::take_log(&log);
+            let got = api::eval_tree_mut(&tree, &mut rc);
+            out.eval();
+            let vars = api::ctx_vars(&rc);
+            let ok = got.lifted().map_or(false, |l| crate::refmodel::eval::outcome_matches(&exp, &l)) && api::same_vars(&m.vars, &vars);
+            if !ok {
+                out.violation(
+                    "order/long-lived-tree",
+                    format!("evaluation #{} of the same precompiled `{}` on the same context (context before: {})", round + 1, src, model.show_vars()),
+                    format!("{} ; context {}", exec::show_ref_result(&exp), m.show_vars()),
+                    format!("{} ; context {}", got.show(), api::show_vars(&vars)),
+                );
+                return;
+            }
+            model = m;
+            model.mutable = true;
+            // programs like `xs = xs + xs` double a value per round: stop before it becomes a memory test
+            let big = model.vars.values().any(|v| match v {
+                RV::Str(s) => s.len() > 4096,
+                RV::Tuple(t) => t.len() > 512,
+                _ => false,
+            });
+            if big {
+                break;
+            }
+        }
+        out.nontrivial(&format!("long-lived {}", src));
+        out.sample(|| format!("`{}` evaluated {} times on one context, every step as the reference says; final {}", src, rounds, model.show_vars()));
+    }
+}
+
 pub fn selfcheck() -> Result<String, String> {
     // the README's script examples through the reference evaluator
     use crate::refmodel::lex::lex;
@@ -628,6 +706,9 @@ pub fn phases(cfg: &Cfg) -> Vec<Box<dyn Phase>> {
         }),
         Box::new(Random {
             n: cfg.n(250_000, 5_000_000),
+        }),
+        Box::new(LongLived {
+            n: cfg.n(2_000, 60_000),
         }),
     ]
 }
